@@ -111,9 +111,12 @@ type Execution struct {
 	Trace       []string // (thread:label) sequence, for determinism checks
 	Steps       int
 	Preemptions int
+	Shared      []string // instrumented locations touched by more than one thread (vacuity guard)
 }
 
 type shadow struct {
+	tids       uint64 // threads that touched this location (vacuity guard)
+	name       string
 	wTid, wClk int
 	wWhere     string
 	reads      map[int]int // tid -> clk
@@ -256,6 +259,8 @@ func access(addr uintptr, name, where string, write bool) {
 		s = &shadow{reads: map[int]int{}, rWhere: map[int]string{}}
 		e.mem[addr] = s
 	}
+	s.tids |= 1 << uint(t.id)
+	s.name = name
 	me := fmt.Sprintf("T%d %s %s", t.id, rw(write), where)
 	if s.wTid != 0 && s.wTid != t.id && !t.vc.covers(s.wTid, s.wClk) {
 		e.race(name, fmt.Sprintf("T%d write %s", s.wTid, s.wWhere), me)
@@ -764,6 +769,16 @@ func RunOnce(bodies []Body, prefix []int, trackRaces bool, horizon int) *Executi
 		}
 	}
 	e.x.Steps = len(e.x.Points)
+	sharedSet := map[string]bool{}
+	for _, sh := range e.mem {
+		if sh.tids&(sh.tids-1) != 0 {
+			sharedSet[sh.name] = true
+		}
+	}
+	for n := range sharedSet {
+		e.x.Shared = append(e.x.Shared, n)
+	}
+	sort.Strings(e.x.Shared)
 	// parked threads of a deadlocked / cut execution are abandoned (their goroutines leak)
 	cur = nil
 	close(e.finish)
